@@ -337,5 +337,39 @@ def err_failstop(ctx: Ctx) -> RuleResult:
     return r
 
 
-RULES = {"ERR-WRAP": err_wrap, "ERR-CHECK": err_check, "ERR-NOSWALLOW": err_noswallow, "ERR-CTX": err_ctx, "ERR-FAILSTOP": err_failstop, "SCH-EAGER": sch_eager,
+def err_locfresh(ctx: Ctx) -> RuleResult:
+    """The call location of a node is read from the frame of THIS call: `get_call_location` neither reads nor fills module-level
+    state (a cache keyed by less than file + line hands a second usage of the same function the location of the first)."""
+    r = RuleResult("ERR-LOCFRESH")
+    f = ctx.method("ExecNode", "get_call_location")
+    glob = ctx.P.modules[f.module.name].globals_ if hasattr(f.module, "name") else {}
+    def bound(t: ast.AST):
+        if isinstance(t, ast.Name):
+            yield t.id
+        elif isinstance(t, (ast.Tuple, ast.List)):
+            for e_ in t.elts:
+                yield from bound(e_)
+
+    local = {a.arg for a in f.node.args.args} | {x for n in iter_own_nodes(f.node) if isinstance(n, (ast.Assign, ast.AnnAssign))
+                                                  for x in bound(n.targets[0] if isinstance(n, ast.Assign) else n.target)}
+    hits = []
+    for n in iter_own_nodes(f.node):
+        if isinstance(n, ast.Name) and n.id in glob and n.id not in local:
+            st = glob[n.id]
+            v = getattr(st, "value", None)
+            mutable = isinstance(v, (ast.Dict, ast.List, ast.Set, ast.DictComp, ast.ListComp)) or \
+                (isinstance(v, ast.Call) and (dotted(v.func) or "").split(".")[-1] in ("dict", "list", "set", "defaultdict", "OrderedDict", "WeakKeyDictionary", "lru_cache"))
+            if mutable:
+                hits.append(n)
+    cached = [d for d in f.node.decorator_list if "cache" in norm_src(d)]
+    r.ob(not hits and not cached, {"module-level containers used by get_call_location": sorted({h.id for h in hits}), "caching decorators": [norm_src(d) for d in cached]})
+    if hits or cached:
+        what = hits[0].id if hits else norm_src(cached[0])
+        r.violate(f"{f.short}: the call location goes through shared state ({what})", f.loc(hits[0]) if hits else f.loc(),
+                  "the location reported for a failing node must be the line of the call that created that node; a memoised lookup "
+                  "returns the line of an earlier call whenever its key does not tell the two calls apart", what)
+    return r
+
+
+RULES = {"ERR-LOCFRESH": err_locfresh, "ERR-WRAP": err_wrap, "ERR-CHECK": err_check, "ERR-NOSWALLOW": err_noswallow, "ERR-CTX": err_ctx, "ERR-FAILSTOP": err_failstop, "SCH-EAGER": sch_eager,
          "ERR-LOGFMT": err_logfmt, "ERR-FRAME": err_frame}
